@@ -809,6 +809,10 @@ def parse_trace(path, first_id=0):
         elif tag == "D":
             t = line.split()
             cur["events"].append(("D", (int(t[1]), int(t[2]))))
+        elif tag == "X":
+            head, fen = line.split(" | ", 1)
+            t = head.split()
+            cur["events"].append(("X", dict(node=gid(int(t[1])), kind=int(t[3]), ply=int(t[5]), depth=int(t[6]), singular_move=code_to_uci(int(t[7])), fen=fen)))
     return searches, evals, maxid
 
 
@@ -896,8 +900,15 @@ def justify_trace(ml_exe, harness_exe, path):
                 if r.site == 6:
                     stats["busy_markers"] = stats.get("busy_markers", 0) + 1
                     continue
-                if r.kind == 4 or r.site == 15:
+                if r.kind == 4:
+                    # the singular-extension verification search itself: table disabled, one move
+                    # excluded, its value only steers the extension -> outside the rule system
                     stats["singular_nodes_excluded"] = stats.get("singular_nodes_excluded", 0) + 1
+                    continue
+                if r.site == 15:
+                    breaks.append(dict(kind="node", what="node returns through the singular-search exit although it is not a singular verification search (stale searchTreeInfo.singularMove?)",
+                                       site=SITE_NAMES.get(r.site), node=r.id, fen=r.fen, ply=r.ply, depth=r.depth, alpha=r.alpha, beta=r.beta,
+                                       score=r.score, fn="negaScout", root_fen=s["root_fen"]))
                     continue
                 if r.site in (7, 19):
                     stats["tb_nodes_outside_c04"] = stats.get("tb_nodes_outside_c04", 0) + 1
@@ -938,6 +949,12 @@ def justify_trace(ml_exe, harness_exe, path):
                 r.ok = True          # provisional: corrected below when the checker says BAD (children of a
                 #                      rejected node are re-evaluated by the checker itself: it only accepts a
                 #                      child id it has accepted before)
+            elif tag == "X":
+                stats["stale_singular_nodes"] = stats.get("stale_singular_nodes", 0) + 1
+                if stats["stale_singular_nodes"] <= 3:
+                    breaks.append(dict(kind="state", what="node runs in singular-search mode (table disabled, move %s excluded) outside a singular verification search: "
+                                       "no rule of the system covers it" % ev["singular_move"], fen=ev["fen"], ply=ev["ply"], depth=ev["depth"],
+                                       call_kind=ev["kind"], root_fen=s["root_fen"]))
             elif tag == "R":
                 depth, mi, nmoves, move, alpha, beta, score, cid = ev
                 maxdepth_seen = max(maxdepth_seen, depth)
@@ -1120,6 +1137,48 @@ def check_directed(oracle, reqs, answers, max_n, stats):
 
 
 # =====================================================================================
+# searches with an emulated helper thread (harness request H): cooperative scheduling of the
+# moment a helper result (HelperThreadResult) reaches the main thread
+# =====================================================================================
+def helper_requests(ctx, positions):
+    rng = ctx.rng
+    reqs = []
+    for fen, e in positions:
+        depth = rng.choice([10, 11, 12] if ctx.quick else [11, 12, 13, 14])
+        mode = rng.choice([0, 0, 0, 1, 2])
+        reqs.append("H %s | %d %d %d %d" % (fen, depth, mode, rng.choice([1, 1, 2, 4]), rng.choice([20, 50, 100])))
+    return reqs
+
+
+def parse_helper_answer(ans):
+    parts = ans.split(" ; ")
+    head = parts[0].split()
+    inject = int(head[0].split("=")[1])
+    best = head[1].split("=")[1]
+    infos = []
+    for p in parts[1:]:
+        d, kind, val, bound, pv0 = p.split()
+        infos.append((int(d), kind, int(val), "" if bound == "exact" else bound, [pv0] if pv0 != "-" else []))
+    return inject, dict(infos=infos, bestmove=best)
+
+
+def check_helper_runs(oracle, reqs, answers, max_n, stats):
+    fails = []
+    for q, ans in zip(reqs, answers):
+        if ans.startswith("ERR"):
+            continue
+        fen = q[2:].split(" | ")[0]
+        inject, res = parse_helper_answer(ans)
+        stats["helper_searches"] = stats.get("helper_searches", 0) + 1
+        stats["helper_results_delivered"] = stats.get("helper_results_delivered", 0) + inject
+        for f in check_announcements(oracle, fen, res, max_n, stats):
+            f["request"] = q
+            f["helper_results_delivered"] = inject
+            fails.append(f)
+    return fails
+
+
+# =====================================================================================
 # (3a) leaf correspondence
 # =====================================================================================
 def leaf_requests(rng, n):
@@ -1200,6 +1259,7 @@ def run_session(sess):
     Returns (results, failures) where results = [(job, res)]."""
     eng = Engine(sess["exe"], sess["options"], trace=sess.get("trace"))
     out = []
+    t_start = time.time()
     try:
         for job in sess["jobs"]:
             fen, depth, newgame, tag = job
@@ -1207,6 +1267,7 @@ def run_session(sess):
             out.append((job, res))
     finally:
         eng.quit()
+    sess["search_s"] = round(time.time() - t_start, 1)
     oracle = Oracle(sess["harness"])
     fails = []
     stats = {}
@@ -1287,23 +1348,33 @@ def plan_sessions(ctx, oracle, engines, harness_exe, traced):
     # every announced mate is checked against the exact distance-to-mate oracle; with the hook the
     # per-thread traces are certified too (shorter mates only: the trace volume explodes once the
     # mate is found)
-    nmt = ctx.scale(8, 40)
-    per = ctx.scale(5, 12)
-    short = dtm_endgames(rng, oracle, (nmt // 2) * per, 3, 6)
-    longer = dtm_endgames(rng, oracle, (nmt - nmt // 2) * per, 5, 12)
-    ctx.count("mt_positions_exact_dtm", len(short) + len(longer))
-    for i in range(nmt):
-        net = rng.choice(list(engines))
-        small = i < nmt // 2
-        s = dict(exe=engines[net], net=net, harness=harness_exe, max_n=ctx.scale(2, 3),
-                 options={"Hash": rng.choice([4, 16]), "Threads": rng.choice([2, 3, 4, 4]), "UseNullMove": rng.choice(["true", "true", "false"])},
-                 jobs=[], trace=None, idx=len(sessions), mt=True, mt_trace=small)
-        pool = short if small else longer
-        for (fen, e) in pool[(i % max(1, nmt // 2)) * per:(i % max(1, nmt // 2)) * per + per]:
-            s["jobs"].append((fen, rng.choice([10, 11, 12]) if small else rng.choice([12, 13, 14]), rng.random() < 0.5, "mt_%s" % e[0]))
-        for j in rng.sample(m1jobs, min(len(m1jobs), ctx.scale(3, 20))):
-            s["jobs"].append(j)
-        sessions.append(s)
+    K3 = ("KQK", "KRK")
+    K4 = ("KRRK", "KQKN", "KQKB", "KQKR", "KQQK", "KRBK", "KRNK")
+    groups = [
+        # (sessions, searches each, dtm range, depths, traced, material classes, threads)
+        (ctx.scale(2, 6), 3, (3, 5), [10, 11], True, K3 + K4, [2, 3, 4]),      # short mates: traces full of mate-score nodes
+        (ctx.scale(3, 16), 5, (8, 16), [11, 12], True, K3, [2, 4, 4]),        # long mates searched below their depth: small traces,
+        #                                                                       many singular verification searches (record X of hook H3b)
+        (ctx.scale(8, 40), 6, (5, 10), [13, 14], False, ("KQK", "KQK", "KQK", "KRK"), [4]),   # finder only (the trace volume explodes
+        #                                                                       once the mate is found): exact DTM oracle on every claim
+        (ctx.scale(2, 12), 4, (4, 12), [10, 11], False, K4, [2, 3, 4]),       # easy 4-man positions, finder only
+    ]
+    nmtpos = 0
+    for (ns, per, (lo, hi), depths, tr, kinds, thr) in groups:
+        pool = dtm_endgames(rng, oracle, ns * per, lo, hi, kinds=kinds)
+        nmtpos += len(pool)
+        for i in range(ns):
+            net = rng.choice(list(engines))
+            s = dict(exe=engines[net], net=net, harness=harness_exe, max_n=ctx.scale(2, 3),
+                     options={"Hash": rng.choice([4, 16]), "Threads": rng.choice(thr), "UseNullMove": rng.choice(["true", "true", "false"])},
+                     jobs=[], trace=None, idx=len(sessions), mt=True, mt_trace=tr)
+            for (fen, e) in pool[i * per:(i + 1) * per]:
+                s["jobs"].append((fen, rng.choice(depths), rng.random() < 0.5, "mt_%s" % e[0]))
+            if not tr and kinds == K4:
+                for j in rng.sample(m1jobs, min(len(m1jobs), ctx.scale(6, 20))):
+                    s["jobs"].append(j)
+            sessions.append(s)
+    ctx.count("mt_positions_exact_dtm", nmtpos)
     if traced:
         d = os.path.join("/tmp", "c04-%d" % os.getpid())
         os.makedirs(d, exist_ok=True)
@@ -1378,6 +1449,7 @@ def run(ctx):
     with ThreadPoolExecutor(max_workers=min(NCPU, 12)) as ex:
         results = list(ex.map(run_session, sessions))
     ctx.notes["search_wall_s"] = round(time.time() - t0, 1)
+    ctx.notes["session_search_s"] = [(s["idx"], s["options"].get("Threads"), len(s["jobs"]), s.get("search_s")) for s in sessions]
     ctx.log("searches done")
     # directed node searches (harness): chunks, each one process with its own table and trace
     nchunk = ctx.scale(6, 24)
